@@ -25,6 +25,7 @@ only by an early `if self.is_vitamin: return` is counted as unconditional and re
 from __future__ import annotations
 
 import ast
+import copy
 
 from harness.common import TranslateError, ast_digest, src_text
 
@@ -34,6 +35,254 @@ GAME_LUMP_BASE = 64
 def _is_self_attr(node: ast.AST, attr: str | None = None) -> bool:
     return (isinstance(node, ast.Attribute) and isinstance(node.value, ast.Name) and node.value.id == 'self'
             and (attr is None or node.attr == attr))
+
+
+# ---------------------------------------------------------------------------------- normalisation (round 3)
+STABLE_ATTRS = {'lumps', 'game_lumps', '_parsed_lumps', '_save_funcs'}
+
+
+def _module_const_names(tree: ast.Module) -> set[str]:
+    """Module-level names bound exactly once (by a plain assignment) in the whole module."""
+    count: dict[str, int] = {}
+    for n in ast.walk(tree):
+        if isinstance(n, ast.Name) and isinstance(n.ctx, (ast.Store, ast.Del)):
+            count[n.id] = count.get(n.id, 0) + 1
+        elif isinstance(n, (ast.Global, ast.Nonlocal)):
+            for nm in n.names:
+                count[nm] = count.get(nm, 0) + 2
+    out = set()
+    for st in tree.body:
+        tg = None
+        if isinstance(st, ast.Assign) and len(st.targets) == 1 and isinstance(st.targets[0], ast.Name):
+            tg = st.targets[0].id
+        elif isinstance(st, ast.AnnAssign) and isinstance(st.target, ast.Name) and st.value is not None:
+            tg = st.target.id
+        if tg is not None and count.get(tg) == 1:
+            out.add(tg)
+    return out
+
+
+def _is_stable_ref(v: ast.AST, roots: set[str], consts: set[str]) -> bool:
+    """`self.lumps`, `self.game_lumps`, `self._parsed_lumps`, `self._save_funcs`, one fixed element of the first two
+    (`self.lumps[BSP_LUMPS.X]`, `instance.game_lumps[self.lump]`), or a module-level constant: expressions that denote the
+    same object wherever they are evaluated inside one lump function."""
+    def root_attr(x: ast.AST) -> bool:
+        return isinstance(x, ast.Attribute) and isinstance(x.value, ast.Name) and x.value.id in roots and x.attr in STABLE_ATTRS
+    if root_attr(v):
+        return True
+    if isinstance(v, ast.Name) and v.id in consts:
+        return True
+    if isinstance(v, ast.Subscript) and root_attr(v.value) and v.value.attr in ('lumps', 'game_lumps'):
+        k = v.slice
+        if isinstance(k, ast.Constant) or (isinstance(k, ast.Name) and k.id in consts):
+            return True
+        if isinstance(k, ast.Attribute) and isinstance(k.value, ast.Name) and k.value.id in ({'BSP_LUMPS'} | roots):
+            return True
+    return False
+
+
+def _inline_aliases(fn: ast.FunctionDef, consts: set[str]) -> None:
+    """In place: a local that is bound exactly once, by a plain assignment at the top level of the function body, to a
+    stable reference (see _is_stable_ref) is replaced by that expression at every use and the binding is dropped.
+    `lumps = self.lumps; lumps[K].data = x` thus reads `self.lumps[K].data = x`, `order = LUMP_REBUILD_ORDER; for v in order`
+    reads `for v in LUMP_REBUILD_ORDER`."""
+    params = {a.arg for a in fn.args.posonlyargs + fn.args.args + fn.args.kwonlyargs}
+    if fn.args.vararg:
+        params.add(fn.args.vararg.arg)
+    if fn.args.kwarg:
+        params.add(fn.args.kwarg.arg)
+    roots = {a.arg for a in (fn.args.posonlyargs + fn.args.args)[:2]}      # self (and `instance` of a descriptor)
+    for _ in range(4):          # an alias of an alias
+        stores: dict[str, int] = {}
+        for n in ast.walk(fn):
+            if isinstance(n, ast.Name) and isinstance(n.ctx, (ast.Store, ast.Del)):
+                stores[n.id] = stores.get(n.id, 0) + 1
+            elif isinstance(n, (ast.Global, ast.Nonlocal)):
+                for nm in n.names:
+                    stores[nm] = stores.get(nm, 0) + 2
+            elif isinstance(n, ast.arg) and n.arg not in params:      # lambda parameters shadow
+                stores[n.arg] = stores.get(n.arg, 0) + 2
+        # the roots' stable attributes must not be rebound inside the function
+        rebound = any(isinstance(n, ast.Attribute) and isinstance(n.ctx, (ast.Store, ast.Del)) and isinstance(n.value, ast.Name)
+                      and n.value.id in roots and n.attr in STABLE_ATTRS for n in ast.walk(fn))
+        subst: dict[str, ast.AST] = {}
+        keep = []
+        for st in fn.body:
+            tg = val = None
+            if isinstance(st, ast.Assign) and len(st.targets) == 1 and isinstance(st.targets[0], ast.Name):
+                tg, val = st.targets[0].id, st.value
+            elif isinstance(st, ast.AnnAssign) and isinstance(st.target, ast.Name) and st.value is not None:
+                tg, val = st.target.id, st.value
+            if tg is not None and tg not in params and stores.get(tg) == 1 and not rebound and tg not in subst \
+                    and _is_stable_ref(val, roots, consts) and not any(isinstance(x, ast.Name) and x.id in subst for x in ast.walk(val)):
+                subst[tg] = val
+            else:
+                keep.append(st)
+        if not subst:
+            return
+
+        class Sub(ast.NodeTransformer):
+            def visit_Name(self, node: ast.Name):
+                if isinstance(node.ctx, ast.Load) and node.id in subst:
+                    new = copy.deepcopy(subst[node.id])
+                    for x in ast.walk(new):
+                        if hasattr(x, 'lineno'):
+                            x.lineno = node.lineno
+                    return new
+                return node
+        fn.body = keep
+        Sub().visit(fn)
+        for n in ast.walk(fn):      # a substituted object that is the target of `.data = ` keeps Store on the attribute only
+            if isinstance(n, ast.Attribute) and isinstance(n.ctx, ast.Store):
+                for x in ast.walk(n.value):
+                    if hasattr(x, 'ctx'):
+                        x.ctx = ast.Load()
+        ast.fix_missing_locations(fn)
+
+
+def _const_list(node: ast.AST, tree: ast.Module, consts: set[str], where: str, depth: int = 0) -> list[ast.AST]:
+    """Elements of a module-level list expression: a list/tuple display, `a + b`, `[*a, x]`, `list(a)`, or the name of a
+    module-level constant bound to one of these."""
+    if depth > 6:
+        raise TranslateError(f'{where}: list expression nested too deeply')
+    if isinstance(node, (ast.List, ast.Tuple)):
+        out: list[ast.AST] = []
+        for e in node.elts:
+            if isinstance(e, ast.Starred):
+                out += _const_list(e.value, tree, consts, where, depth + 1)
+            else:
+                out.append(e)
+        return out
+    if isinstance(node, ast.BinOp) and isinstance(node.op, ast.Add):
+        return _const_list(node.left, tree, consts, where, depth + 1) + _const_list(node.right, tree, consts, where, depth + 1)
+    if isinstance(node, ast.Call) and isinstance(node.func, ast.Name) and node.func.id in ('list', 'tuple') and len(node.args) == 1 \
+            and not node.keywords:
+        return _const_list(node.args[0], tree, consts, where, depth + 1)
+    if isinstance(node, ast.Name) and node.id in consts and node.id != 'BSP_LUMPS':
+        for st in tree.body:
+            tg = st.targets[0] if isinstance(st, ast.Assign) and len(st.targets) == 1 else getattr(st, 'target', None)
+            if isinstance(tg, ast.Name) and tg.id == node.id and getattr(st, 'value', None) is not None:
+                return _const_list(st.value, tree, consts, where, depth + 1)
+    raise TranslateError(f'{where}: not a list display (or a sum / unpacking of list displays): {ast.unparse(node)[:80]}')
+
+
+def _inline_helper_calls(body: list[ast.stmt], methods: dict[str, ast.FunctionDef], funcs: dict[str, ast.FunctionDef],
+                         self_name: str, where: str, depth: int = 0) -> list[ast.stmt]:
+    """A statement that is just a call of a method of the same class (`self.h(a, b)`) or of a module-level function
+    (`h(a, b)`) is replaced by the body of `h` with the parameters replaced by the argument expressions.  Only helpers
+    without a return value, without yield/nested definitions and whose parameters are not rebound are followed; the
+    arguments must be names, attributes of names or constants (evaluating them has no effect)."""
+    if depth > 4:
+        raise TranslateError(f'{where}: helper calls nested too deeply')
+    out: list[ast.stmt] = []
+    for st in body:
+        for fld in ('body', 'orelse', 'finalbody'):
+            if isinstance(getattr(st, fld, None), list) and not isinstance(st, (ast.FunctionDef, ast.ClassDef, ast.AsyncFunctionDef)):
+                setattr(st, fld, _inline_helper_calls(getattr(st, fld), methods, funcs, self_name, where, depth))
+        for h in getattr(st, 'handlers', []):
+            h.body = _inline_helper_calls(h.body, methods, funcs, self_name, where, depth)
+        call = st.value if isinstance(st, ast.Expr) and isinstance(st.value, ast.Call) else None
+        target = None
+        if call is not None:
+            f = call.func
+            if isinstance(f, ast.Attribute) and isinstance(f.value, ast.Name) and f.value.id == self_name and f.attr in methods:
+                target, bound = methods[f.attr], [ast.Name(id=self_name, ctx=ast.Load())]
+            elif isinstance(f, ast.Name) and f.id in funcs:
+                target, bound = funcs[f.id], []
+        if target is None:
+            out.append(st)
+            continue
+        hw = f'{where}:{st.lineno}: helper {target.name}'
+        a = target.args
+        if a.vararg or a.kwarg or a.kwonlyargs or a.defaults or a.posonlyargs or target.decorator_list:
+            raise TranslateError(f'{hw}: signature with defaults / *args / decorators is not followed')
+        params = [x.arg for x in a.args]
+        args = bound + list(call.args)
+        if any(isinstance(x, ast.Starred) for x in args) or len(args) + len(call.keywords) != len(params):
+            raise TranslateError(f'{hw}: arguments do not match the parameters')
+        amap = dict(zip(params, args))
+        for kw in call.keywords:
+            if kw.arg is None or kw.arg not in params or kw.arg in amap:
+                raise TranslateError(f'{hw}: keyword argument not matched')
+            amap[kw.arg] = kw.value
+        for x in amap.values():
+            simple = isinstance(x, (ast.Name, ast.Constant)) or (isinstance(x, ast.Attribute) and isinstance(x.value, ast.Name)) \
+                or (isinstance(x, ast.Subscript) and isinstance(x.value, ast.Attribute) and isinstance(x.value.value, ast.Name)
+                    and isinstance(x.slice, ast.Slice))
+            if not simple:
+                raise TranslateError(f'{hw}: argument {ast.unparse(x)} is not a plain name / attribute')
+        hbody = copy.deepcopy(target.body)
+        if hbody and isinstance(hbody[0], ast.Expr) and isinstance(hbody[0].value, ast.Constant) and isinstance(hbody[0].value.value, str):
+            hbody = hbody[1:]       # docstring
+        if hbody and isinstance(hbody[-1], ast.Return) and hbody[-1].value is None:
+            hbody = hbody[:-1]
+        for n in [x for b in hbody for x in ast.walk(b)]:
+            if isinstance(n, (ast.Return, ast.Yield, ast.YieldFrom, ast.FunctionDef, ast.AsyncFunctionDef, ast.ClassDef, ast.Lambda,
+                              ast.Global, ast.Nonlocal)):
+                raise TranslateError(f'{hw}: return / yield / nested definition inside the helper is not followed')
+            if isinstance(n, ast.Name) and n.id in amap and not isinstance(n.ctx, ast.Load):
+                raise TranslateError(f'{hw}: parameter {n.id} is rebound')
+
+        class Sub(ast.NodeTransformer):
+            def visit_Name(self, node: ast.Name):
+                if node.id in amap:
+                    new = copy.deepcopy(amap[node.id])
+                    for x in ast.walk(new):
+                        if hasattr(x, 'lineno'):
+                            x.lineno = node.lineno
+                    return new
+                return node
+        hbody = [Sub().visit(b) for b in hbody]
+        for b in hbody:
+            ast.fix_missing_locations(b)
+        out += _inline_helper_calls(hbody or [ast.Pass(lineno=st.lineno, col_offset=0)], methods, funcs, self_name, where, depth + 1)
+    return out
+
+
+def _unrollable(st: ast.For) -> bool:
+    """A for-loop over a non-empty tuple/list display whose target is a name or a flat tuple of names matched by every
+    element, without else / break / continue, whose body does not rebind the target names."""
+    if not isinstance(st.iter, (ast.Tuple, ast.List)) or not st.iter.elts or st.orelse or len(st.iter.elts) > 16:
+        return False
+    if any(isinstance(e, ast.Starred) for e in st.iter.elts):
+        return False
+    if isinstance(st.target, ast.Name):
+        names = [st.target.id]
+    elif isinstance(st.target, (ast.Tuple, ast.List)) and all(isinstance(t, ast.Name) for t in st.target.elts):
+        names = [t.id for t in st.target.elts]
+        if not all(isinstance(e, (ast.Tuple, ast.List)) and len(e.elts) == len(names)
+                   and not any(isinstance(x, ast.Starred) for x in e.elts) for e in st.iter.elts):
+            return False
+    else:
+        return False
+    for b in st.body:
+        for n in ast.walk(b):
+            if isinstance(n, (ast.Break, ast.Continue, ast.FunctionDef, ast.Lambda, ast.ClassDef)):
+                return False
+            if isinstance(n, ast.Name) and n.id in names and not isinstance(n.ctx, ast.Load):
+                return False
+    return True
+
+
+def _bind_loop_target(st: ast.For, elt: ast.AST) -> list[ast.stmt]:
+    if isinstance(st.target, ast.Name):
+        amap = {st.target.id: elt}
+    else:
+        amap = {t.id: e for t, e in zip(st.target.elts, elt.elts)}
+
+    class Sub(ast.NodeTransformer):
+        def visit_Name(self, node: ast.Name):
+            if node.id in amap:
+                new = copy.deepcopy(amap[node.id])
+                for x in ast.walk(new):
+                    if hasattr(x, 'lineno'):
+                        x.lineno = node.lineno
+                return new
+            return node
+    body = [Sub().visit(copy.deepcopy(b)) for b in st.body]
+    for b in body:
+        ast.fix_missing_locations(b)
+    return body
 
 
 class _Module:
@@ -63,6 +312,12 @@ class _Module:
         raise TranslateError(f'{where}: lump index is not a BSP_LUMPS member or game-lump constant: {ast.unparse(node)}')
 
     def _scan(self) -> None:
+        self.const_names = _module_const_names(self.tree)
+        for n in self.tree.body:        # normalise the functions the translator interprets (see _inline_aliases)
+            if isinstance(n, ast.ClassDef) and n.name in ('BSP', 'ParsedLump'):
+                for f in n.body:
+                    if isinstance(f, ast.FunctionDef):
+                        _inline_aliases(f, self.const_names)
         for n in self.tree.body:
             if isinstance(n, ast.ClassDef) and n.name == 'BSP_LUMPS':
                 for st in n.body:
@@ -83,9 +338,8 @@ class _Module:
             elif isinstance(n, ast.Assign) and len(n.targets) == 1 and isinstance(n.targets[0], ast.Name):
                 tgt, val = n.targets[0].id, n.value
             if tgt == 'LUMP_REBUILD_ORDER':
-                if not isinstance(val, ast.List):
-                    raise TranslateError(f'bsp.py:{n.lineno}: LUMP_REBUILD_ORDER is not a list literal')
-                self.order = [self.lump_key(e, f'bsp.py:{e.lineno} LUMP_REBUILD_ORDER') for e in val.elts]
+                elts = _const_list(val, self.tree, self.const_names, f'bsp.py:{n.lineno} LUMP_REBUILD_ORDER')
+                self.order = [self.lump_key(e, f'bsp.py:{e.lineno} LUMP_REBUILD_ORDER') for e in elts]
             if isinstance(n, ast.ClassDef) and n.name == 'BSP':
                 self.bsp = n
         # LUMP_REBUILD_ORDER must not be mutated after its definition
@@ -135,6 +389,113 @@ class _Module:
                     if _is_self_attr(t):
                         self.init_attrs.add(t.attr)
 
+    # ------------------------------------------------------------------ lumps stored on every path
+    def must_store(self, fname: str, _stack: tuple[str, ...] = ()) -> set[str]:
+        """Lump keys that BSP.<fname> stores on EVERY path that ends normally (falls off the end or returns): `if c: A = x;
+        return` followed by `A = y`, or `if c: A = x else: A = y`, store A unconditionally although each single store is
+        guarded.  A path that raises writes no file and is ignored; a loop body may run zero times (except a loop over a
+        literal, which is unrolled); an exception handler starts from what was stored before the `try`; helper methods
+        called as a statement (or as the value of an assignment / return / yield) contribute what they store on every
+        path.  As everywhere in this translator, the branch of a `self.is_vitamin` test that belongs to the VitaminSource
+        layout is left out."""
+        if fname in _stack or len(_stack) > 6 or fname not in self.methods:
+            return set()
+        stack = _stack + (fname,)
+
+        def simple(st: ast.stmt) -> set[str]:
+            out: set[str] = set()
+            targets: list[ast.AST] = []
+            if isinstance(st, ast.Assign):
+                targets = list(st.targets)
+            elif isinstance(st, (ast.AnnAssign, ast.AugAssign)):
+                targets = [st.target]
+            for t in targets:
+                for x in ([t] if not isinstance(t, (ast.Tuple, ast.List)) else t.elts):
+                    if isinstance(x, ast.Attribute) and x.attr == 'data' and isinstance(x.value, ast.Subscript) \
+                            and _is_self_attr(x.value.value) and x.value.value.attr in ('lumps', 'game_lumps'):
+                        try:
+                            out.add(self.lump_key(x.value.slice, fname))
+                        except TranslateError:
+                            pass        # reported by effects()
+            val = getattr(st, 'value', None)
+            if isinstance(val, (ast.Yield, ast.YieldFrom, ast.Await)):
+                val = val.value
+            if isinstance(val, ast.Call) and _is_self_attr(val.func) and val.func.attr in self.methods:
+                out |= self.must_store(val.func.attr, stack)
+            return out
+
+        def vit(test: ast.AST) -> str | None:
+            t = ast.unparse(test)
+            return 'body' if t == 'self.is_vitamin' else 'orelse' if t in ('not self.is_vitamin', 'not (self.is_vitamin)') else None
+
+        def meet(xs: list) -> set[str] | None:
+            xs = [x for x in xs if x is not None]
+            if not xs:
+                return None
+            out = set(xs[0])
+            for x in xs[1:]:
+                out &= x
+            return out
+
+        def block(stmts: list[ast.stmt], cur: set[str] | None) -> tuple[set[str] | None, list[set[str]]]:
+            rets: list[set[str]] = []
+            for st in stmts:
+                if cur is None:
+                    break
+                if isinstance(st, ast.Return):
+                    rets.append(cur | simple(st))
+                    cur = None
+                elif isinstance(st, ast.Raise):
+                    cur = None
+                elif isinstance(st, ast.If):
+                    a, ra = block(st.body, set(cur))
+                    b, rb = block(st.orelse, set(cur))
+                    v = vit(st.test)
+                    if v == 'body':
+                        rets += rb
+                        cur = b if b is not None else a
+                    elif v == 'orelse':
+                        rets += ra
+                        cur = a if a is not None else b
+                    else:
+                        rets += ra + rb
+                        cur = meet([a, b])
+                elif isinstance(st, ast.For) and _unrollable(st):
+                    for elt in st.iter.elts:
+                        cur, r = block(_bind_loop_target(st, elt), cur)
+                        rets += r
+                        if cur is None:
+                            break
+                elif isinstance(st, (ast.For, ast.While)):
+                    _, r = block(st.body, set(cur))
+                    _, r2 = block(st.orelse, set(cur))
+                    rets += r + r2
+                elif isinstance(st, ast.Try):
+                    b, rb = block(st.body, set(cur))
+                    hs = []
+                    for h in st.handlers:
+                        x, rx = block(h.body, set(cur))
+                        hs.append(x)
+                        rets += rx
+                    e, re_ = block(st.orelse, b) if b is not None else (None, [])
+                    rets += rb + re_
+                    fall = meet([e] + hs) if (e is not None or any(x is not None for x in hs)) else None
+                    if fall is not None:
+                        fall, rf = block(st.finalbody, fall)
+                        rets += rf
+                    cur = fall
+                elif isinstance(st, ast.With):
+                    cur, r = block(st.body, cur)
+                    rets += r
+                elif isinstance(st, (ast.FunctionDef, ast.AsyncFunctionDef, ast.ClassDef, ast.Match)):
+                    pass
+                else:
+                    cur = cur | simple(st)
+            return cur, rets
+
+        fall, rets = block(self.methods[fname].body, set())
+        return meet([fall] + rets) or set()
+
     def lump_num(self, key: str) -> int:
         if key.startswith('L:'):
             return self.lump_vals[key[2:]]
@@ -147,6 +508,7 @@ class _Module:
         seen: set[str] = set()
 
         param_alias: dict[str, dict[str, str]] = {}     # callee -> parameter name -> view handed in
+        elem_taint: dict[str, dict[str, set[str]]] = {}  # callee -> parameter name -> views whose objects are handed in
 
         def visit_func(name: str, ctx: tuple[str, ...]) -> None:
             if name in seen:
@@ -186,6 +548,26 @@ class _Module:
                         raise TranslateError(f'bsp.py BSP.{name}:{n.lineno}: view alias {n.id} aliased again')
                     if k != 'param':
                         out.setdefault('uses', []).append((alias[n.id], k, n.lineno))
+            calls_out: dict[str, dict[int, set[str]]] = {}
+            muts = _element_mutations(fn, alias, set(self.views), elem_taint.get(name), calls_out)
+            for v in sorted({v for v, _, _ in muts}):
+                late = name == fname and _mutations_come_last(fn, [n for w, _, n in muts if w == v])
+                for w, line, _ in muts:
+                    if w == v:
+                        out.setdefault('elem_mut', []).append((v, line, late))
+            for callee_name, by_pos in calls_out.items():
+                if callee_name not in self.methods:
+                    continue
+                cfn = self.methods[callee_name]
+                static = any(isinstance(d, ast.Name) and d.id == 'staticmethod' for d in cfn.decorator_list)
+                cparams = [a.arg for a in cfn.args.args[0 if static else 1:]]
+                for k, vs in by_pos.items():
+                    if k >= len(cparams):
+                        raise TranslateError(f'bsp.py BSP.{name}: object of a view handed to self.{callee_name} in an untracked way')
+                    have = elem_taint.setdefault(callee_name, {}).setdefault(cparams[k], set())
+                    if callee_name in seen and not vs <= have:
+                        raise TranslateError(f'bsp.py BSP.{name}: self.{callee_name} receives objects of {sorted(vs - have)} after it was analysed')
+                    have |= vs
             self._walk_body(fn.body, ctx, out, visit_func, f'bsp.py BSP.{name}')
 
         if fname not in self.methods:
@@ -207,6 +589,12 @@ class _Module:
                     early += (f'after-return-if ({test})',)
                 elif _has_return(st.orelse) and not _has_return(st.body):
                     early += (f'after-return-if (not ({test}))',)
+            elif isinstance(st, ast.For) and _unrollable(st):
+                # `for lump, buf in ((BSP_LUMPS.A, a), (BSP_LUMPS.B, b)): self.lumps[lump].data = ...`: a loop over a
+                # non-empty display is its body once per element, executed unconditionally
+                self._expr(st.iter, c, out, visit_func, where)
+                for elt in st.iter.elts:
+                    self._walk_body(_bind_loop_target(st, elt), c, out, visit_func, where)
             elif isinstance(st, (ast.For, ast.While)):
                 if isinstance(st, ast.For):
                     self._expr(st.iter, c, out, visit_func, where)
@@ -342,6 +730,213 @@ def _classify_use(n: ast.Attribute, par: dict[int, ast.AST]) -> str:
     return 'read'                   # for-iteration, comparison, boolean test, comprehension source, f-string ...
 
 
+def _element_mutations(fn: ast.FunctionDef, alias: dict[str, str], views: set[str],
+                       param_taint: dict[str, set[str]] | None = None,
+                       calls_out: dict[str, dict[int, set[str]]] | None = None) -> list[tuple[str, int]]:
+    """Objects REACHED THROUGH a view that the function changes in place (the view container itself is classified by
+    _classify_use): `vmf = self.ents; for ent in vmf.entities: ent.pop('model')`, `of = orig_faces[i]; of.texinfo = t`.
+    A local name is tainted by view V when it is bound (assignment, for target, comprehension target, with-as, walrus)
+    from an expression that mentions `self.V`, an alias of V or a name tainted by V.  A change is an attribute / item
+    store or delete, an augmented assignment to an attribute / item, or a call of an appending / mutating method, whose
+    receiver chain (attributes, subscripts, method calls) is rooted at a tainted name — or at the view itself and at
+    least two links long.  May-analysis: over-approximate (a number computed from a view taints its name, but numbers
+    have no attribute stores); the result is a census of (view) pairs, compared with the list that was reviewed."""
+    taint: dict[str, set[str]] = {k: set(v) for k, v in (param_taint or {}).items()}
+    me = fn.args.args[0].arg if fn.args.args else ''
+    holder: dict[str, set[str]] = {}     # local containers that were handed such objects: `d[ent] = x`, `l.append(ent)`
+
+    def mentions(e: ast.AST) -> set[str]:
+        """Views through which the object denoted by `e` may be reached.  `a[i]` and `a.f` are reached through `a` (the
+        index only selects); any other expression may hand on whatever its sub-expressions denote."""
+        if isinstance(e, ast.Name):
+            return ({alias[e.id]} if e.id in alias else set()) | taint.get(e.id, set()) | holder.get(e.id, set())
+        if _is_self_attr(e) and e.attr in views:
+            return {e.attr}
+        if isinstance(e, (ast.Subscript, ast.Attribute, ast.Starred)):
+            return mentions(e.value)
+        out: set[str] = set()
+        if isinstance(e, ast.Call):
+            # a method of such an object (or of a container of them) hands out its parts: `vmf.by_class[c]`, `d.items()`;
+            # a function of a module (`itertools.zip_longest(a, b)`) and the re-packing builtins hand on their arguments;
+            # any other call (a constructor: `BModel(..., self.nodes[i])`, `int(x)`) makes a new object of the caller's own
+            args = list(e.args) + [k.value for k in e.keywords]
+            if isinstance(e.func, ast.Attribute):
+                out = mentions(e.func.value)
+                if not out and isinstance(e.func.value, ast.Name):
+                    for a in args:
+                        out |= mentions(a)
+            elif isinstance(e.func, ast.Name) and e.func.id in _REPACKING:
+                for a in args:
+                    out |= mentions(a)
+            return out
+        for ch in ast.iter_child_nodes(e):
+            out |= mentions(ch)
+        return out
+
+    def bind(target: ast.AST, vs: set[str]) -> bool:
+        ch = False
+        for x in ast.walk(target):
+            if isinstance(x, ast.Name) and isinstance(x.ctx, ast.Store) and x.id not in alias:
+                if not vs <= taint.get(x.id, set()):
+                    taint.setdefault(x.id, set()).update(vs)
+                    ch = True
+        return ch
+
+    for _ in range(12):
+        changed = False
+        for n in ast.walk(fn):
+            if isinstance(n, ast.Assign):
+                vs = mentions(n.value)
+                for t in n.targets:
+                    if vs:
+                        changed |= bind(t, vs)
+                    # a local container that receives such an object (as key or value) hands it on: `d[ent] = x`
+                    if isinstance(t, ast.Subscript):
+                        r = t.value
+                        while isinstance(r, (ast.Subscript, ast.Attribute)):
+                            r = r.value
+                        ws = vs | mentions(t.slice)
+                        if isinstance(r, ast.Name) and r.id not in alias and r.id != me and ws and not ws <= holder.get(r.id, set()):
+                            holder.setdefault(r.id, set()).update(ws)
+                            changed = True
+            elif isinstance(n, ast.Call) and isinstance(n.func, ast.Attribute) and isinstance(n.func.value, ast.Name) \
+                    and n.func.attr in (APPEND_METHODS | {'add', 'insert', 'setdefault', 'update'}) and n.func.value.id not in alias \
+                    and n.func.value.id != me:
+                ws = set()
+                for a in n.args:
+                    ws |= mentions(a)
+                if ws and not ws <= holder.get(n.func.value.id, set()):
+                    holder.setdefault(n.func.value.id, set()).update(ws)
+                    changed = True
+            elif isinstance(n, (ast.AnnAssign, ast.NamedExpr)) and getattr(n, 'value', None) is not None:
+                vs = mentions(n.value)
+                if vs:
+                    changed |= bind(n.target, vs)
+            elif isinstance(n, (ast.For, ast.comprehension)):
+                vs = mentions(n.iter)
+                if vs:
+                    changed |= bind(n.target, vs)
+            elif isinstance(n, ast.withitem) and n.optional_vars is not None:
+                vs = mentions(n.context_expr)
+                if vs:
+                    changed |= bind(n.optional_vars, vs)
+        if not changed:
+            break
+    else:
+        raise TranslateError(f'bsp.py BSP.{fn.name}: element taint does not stabilise')
+
+    def root(e: ast.AST) -> tuple[set[str], int]:
+        """Views at the root of a receiver chain and the number of links below the root."""
+        depth = 0
+        while True:
+            if isinstance(e, (ast.Attribute, ast.Subscript)):
+                if _is_self_attr(e) and e.attr in views:
+                    return {e.attr}, depth
+                e, depth = e.value, depth + 1
+            elif isinstance(e, ast.Call) and isinstance(e.func, ast.Attribute):
+                e, depth = e.func.value, depth + 1
+            else:
+                break
+        if isinstance(e, ast.Name):
+            if e.id in alias:
+                return {alias[e.id]}, depth
+            if e.id in taint:
+                return set(taint[e.id]), depth + 1      # an element: one link below the view already
+            return set(holder.get(e.id, set())), depth   # a local container of elements: like the view itself
+        return set(), depth
+
+    if calls_out is not None:       # objects handed to other BSP methods: their parameters are tainted there
+        for n in ast.walk(fn):
+            if isinstance(n, ast.Call) and _is_self_attr(n.func):
+                for k, a in enumerate(n.args):
+                    vs = mentions(a) if not (_is_self_attr(a) and a.attr in views) and not (isinstance(a, ast.Name) and a.id in alias) else set()
+                    if vs:
+                        calls_out.setdefault(n.func.attr, {}).setdefault(k, set()).update(vs)
+                for kw in n.keywords:
+                    if mentions(kw.value):
+                        raise TranslateError(f'bsp.py BSP.{fn.name}:{n.lineno}: object of a view handed to self.{n.func.attr} by keyword')
+    found: list[tuple[str, int, ast.AST]] = []
+    for n in ast.walk(fn):
+        recv = None
+        if isinstance(n, (ast.Attribute, ast.Subscript)) and isinstance(n.ctx, (ast.Store, ast.Del)):
+            recv = n.value
+            extra = 1
+        elif isinstance(n, ast.Call) and isinstance(n.func, ast.Attribute) and n.func.attr in (APPEND_METHODS | MUTATE_METHODS):
+            recv = n.func.value
+            extra = 1
+        if recv is None:
+            continue
+        vs, depth = root(recv)
+        if vs and depth + extra >= 2:
+            found += [(v, n.lineno, n) for v in sorted(vs)]
+    return found
+
+
+_REPACKING = {'list', 'tuple', 'sorted', 'reversed', 'zip', 'enumerate', 'iter', 'next', 'set', 'frozenset', 'dict', 'filter',
+              'min', 'max', 'cast', 'copy', 'deepcopy'}
+_PURE_STR_TESTS = {'startswith', 'endswith', 'isdigit', 'lower', 'upper', 'casefold', 'strip'}
+
+
+def _mutations_come_last(fn: ast.FunctionDef, sites: list[ast.AST]) -> bool:
+    """True when, from the first top-level statement of `fn` that contains one of the mutation `sites` on, the function
+    consists only of: the mutation statements themselves (a mutating call as a statement, an assignment / deletion whose
+    target is a site, with a plain name or constant as value), `for` loops over an attribute chain and `if` tests made of
+    comparisons, boolean operators, subscripts, attribute chains and pure string tests around such statements, `pass` and
+    a final `return <name>`.  Then nothing that could raise for lack of data follows the first change (the tests were
+    all evaluated before, by whatever decided that the lump parses)."""
+    ids = {id(x) for x in sites}
+    first = None
+    for k, st in enumerate(fn.body):
+        if any(id(x) in ids for x in ast.walk(st)):
+            first = k
+            break
+    if first is None:
+        return False        # the sites are not in this function's own body
+
+    def plain(e: ast.AST | None) -> bool:
+        return e is None or isinstance(e, (ast.Name, ast.Constant))
+
+    def chain(e: ast.AST) -> bool:
+        while isinstance(e, (ast.Attribute, ast.Subscript)):
+            if isinstance(e, ast.Subscript) and not isinstance(e.slice, (ast.Constant, ast.Name)):
+                return False
+            e = e.value
+        return isinstance(e, ast.Name)
+
+    def test(e: ast.AST) -> bool:
+        if isinstance(e, ast.BoolOp):
+            return all(test(v) for v in e.values)
+        if isinstance(e, ast.UnaryOp) and isinstance(e.op, ast.Not):
+            return test(e.operand)
+        if isinstance(e, ast.Compare):
+            return all(test(x) for x in [e.left, *e.comparators])
+        if isinstance(e, ast.Call):
+            return isinstance(e.func, ast.Attribute) and e.func.attr in _PURE_STR_TESTS and chain(e.func.value) \
+                and all(isinstance(a, ast.Constant) for a in e.args) and not e.keywords
+        return isinstance(e, ast.Constant) or chain(e)
+
+    def clean(st: ast.stmt) -> bool:
+        if isinstance(st, (ast.Pass, ast.Continue)):
+            return True
+        if isinstance(st, ast.Return):
+            return plain(st.value)
+        if isinstance(st, ast.Expr):
+            c = st.value
+            return isinstance(c, ast.Call) and id(c) in ids and all(plain(a) for a in c.args) and not c.keywords
+        if isinstance(st, ast.Assign):
+            return all(id(t) in ids for t in st.targets) and plain(st.value)
+        if isinstance(st, ast.Delete):
+            return all(id(t) in ids for t in st.targets)
+        if isinstance(st, ast.For):
+            return chain(st.iter) and isinstance(st.target, ast.Name) and not st.orelse and all(clean(b) for b in st.body)
+        if isinstance(st, ast.If):
+            return test(st.test) and all(clean(b) for b in st.body) and all(clean(b) for b in st.orelse)
+        return False
+
+    return all(clean(st) for st in fn.body[first:])
+
+
+
 # ---------------------------------------------------------------------------------- __get__ / save shape
 def _paths(stmts: list[ast.stmt], ev_of, where: str) -> list[tuple[list, bool]]:
     """Every path through a statement list as (events, terminated)."""
@@ -401,6 +996,27 @@ def _get_shape(tree: ast.Module) -> dict:
         raise TranslateError('ParsedLump.__get__ not found')
     where = f'bsp.py ParsedLump.__get__'
     inst = fn.args.args[1].arg
+    me = fn.args.args[0].arg
+    # helpers of the descriptor (methods of ParsedLump, module-level functions) called as statements are inlined; any other
+    # code that is handed the BSP object (or one of its lump tables) could clear / cache anything: fail closed
+    methods = {f.name: f for f in cls.body if isinstance(f, ast.FunctionDef) and not f.name.startswith('__')}
+    funcs = {f.name: f for f in tree.body if isinstance(f, ast.FunctionDef)}
+    fn = copy.deepcopy(fn)
+    fn.body = _inline_helper_calls(fn.body, methods, funcs, me, where)
+    for n in ast.walk(fn):
+        if isinstance(n, ast.Call):
+            is_reader = isinstance(n.func, ast.Attribute) and isinstance(n.func.value, ast.Name) and n.func.value.id == me \
+                and n.func.attr == '_read'
+            handed = [x for x in list(n.args) + [k.value for k in n.keywords]
+                      if any(isinstance(y, ast.Name) and y.id == inst for y in ast.walk(x))]
+            pure = isinstance(n.func, ast.Name) and n.func.id in ('len', 'isinstance', 'type', 'id', 'repr', 'str', 'bool')
+            if handed and not is_reader and not pure:
+                raise TranslateError(f'{where}:{n.lineno}: the BSP object is handed to code that is not followed: {ast.unparse(n)[:80]}')
+        if isinstance(n, (ast.Assign, ast.AnnAssign, ast.NamedExpr)) and getattr(n, 'value', None) is not None:
+            v = n.value
+            if (isinstance(v, ast.Name) and v.id == inst) or (isinstance(v, ast.Attribute) and isinstance(v.value, ast.Name)
+                                                              and v.value.id == inst and v.attr in STABLE_ATTRS):
+                raise TranslateError(f'{where}:{n.lineno}: the BSP object or one of its tables is aliased: {ast.unparse(n)[:80]}')
     alias: dict[str, str] = {}          # local name -> 'main' (an alias of the main Lump / GameLump object)
 
     def lump_kind(idx: ast.AST, bound: dict[str, str]) -> str:
@@ -410,6 +1026,10 @@ def _get_shape(tree: ast.Module) -> dict:
             return 'all'
         if isinstance(idx, ast.Name) and bound.get(idx.id) in ('self.to_clear[1:]',):
             return 'extra'
+        if isinstance(idx, ast.Name) and bound.get(idx.id) in ('self.to_clear[:1]', 'self.to_clear[0:1]', '(self.lump,)', '[self.lump]'):
+            return 'main'
+        if isinstance(idx, ast.Subscript) and ast.unparse(idx) == 'self.to_clear[0]':
+            return 'main'
         raise TranslateError(f'{where}:{idx.lineno}: lump index {ast.unparse(idx)} is neither self.lump nor an element of self.to_clear')
 
     def is_lump_obj(x: ast.AST) -> bool:
@@ -448,7 +1068,8 @@ def _get_shape(tree: ast.Module) -> dict:
                 raise TranslateError(f'{where}:{n.lineno}: _parsed_lumps.{n.func.attr}() in __get__')
         return loads + stores           # the right-hand side is evaluated before the targets are stored
 
-    ev_of.nonempty = lambda it: _is_self_attr(it, 'to_clear')       # (lump, *extra): never empty
+    ev_of.nonempty = lambda it: (_is_self_attr(it, 'to_clear')       # (lump, *extra): never empty
+                                 or ast.unparse(it) in ('self.to_clear[:1]', 'self.to_clear[0:1]', '(self.lump,)', '[self.lump]'))
     paths = _paths(fn.body, ev_of, where)
     early_main = early_extra = False
     uncached = False
@@ -664,6 +1285,7 @@ def translate() -> tuple[str, dict]:
     side_views = {}
     view_uses: list[tuple[str, int, int, str, int]] = []
     reader_stores: list[tuple[int, int, int]] = []
+    elem_muts: list[tuple[str, int, int, int, bool]] = []
     for i, v in enumerate(view_at):
         if v is None:
             decls.append(([], [], [], []))
@@ -678,9 +1300,10 @@ def translate() -> tuple[str, dict]:
         wdeps = sorted({vnum(x, v) for x in wr['views']})
         wstore = [own[0]]   # the returned bytes are stored into the main lump by BSP.save
         vit_only = []
+        must = m.must_store('_lmp_write_' + suffix)
         for key, ctx, line in wr['stores']:
             num = m.lump_num(key)
-            if not ctx or _only_vitamin(ctx):
+            if not ctx or _only_vitamin(ctx) or key in must:
                 if num not in wstore:
                     wstore.append(num)
                 if ctx:
@@ -695,13 +1318,17 @@ def translate() -> tuple[str, dict]:
         for who, eff in (('reader', rd), ('writer', wr)):
             for used, kind, line in eff.get('uses', []):
                 view_uses.append((who, i, vnum(used, v), kind, line))
+            for used, line, late in eff.get('elem_mut', []):
+                if used != v:       # a reader builds, a writer may normalise, the objects of its OWN view
+                    elem_muts.append((who, i, vnum(used, v), line, late))
         decls.append((own, rdeps, wdeps, wstore))
         side_views[v] = {
             'position': i, 'main': m.views[v][0], 'extra': m.views[v][1],
             'reader_views': sorted(rd['views']), 'writer_views': sorted(wr['views']),
             'reader_raw': sorted(rd['raw_reads']), 'writer_stores': sorted({k for k, _, _ in wr['stores']}),
             'stores_skipped_only_for_vitamin': sorted(set(vit_only)),
-            'conditional_stores': [(k, ' & '.join(c)) for k, c, _ in wr['stores'] if c and not _only_vitamin(c)],
+            'conditional_stores': [(k, ' & '.join(c)) for k, c, _ in wr['stores'] if c and not _only_vitamin(c) and k not in must],
+            'stored_on_every_path': sorted(must),
             'helpers': sorted(set(rd['helpers'] + wr['helpers'])),
         }
 
@@ -716,6 +1343,12 @@ def translate() -> tuple[str, dict]:
     def uses(who: str) -> str:
         trip = sorted({(a, b, KIND[k]) for w, a, b, k, _ in view_uses if w == who})
         return '[' + '; '.join(f'({a}, {b}, {k})' for a, b, k in trip) + ']'
+
+    def emuts(who: str) -> str:
+        return '[' + '; '.join(f'({a}, {b})' for a, b in sorted({(a, b) for w, a, b, _, _ in elem_muts if w == who})) + ']'
+
+    def emuts_early() -> str:
+        return '[' + '; '.join(f'({a}, {b})' for a, b in sorted({(a, b) for w, a, b, _, late in elem_muts if w == 'reader' and not late})) + ']'
 
     def cb(b: bool) -> str:
         return 'true' if b else 'false'
@@ -758,12 +1391,19 @@ def translate() -> tuple[str, dict]:
         '(* how readers / writers use the views they look at: (view, used view, 0 read | 1 append | 2 mutate | 3 escape) *)',
         'Definition bsp_reader_uses : list (nat * nat * nat) := ' + uses('reader') + '.',
         'Definition bsp_writer_uses : list (nat * nat * nat) := ' + uses('writer') + '.',
+        '(* objects reached through ANOTHER view that a reader / writer changes in place: (view, view whose objects change) *)',
+        'Definition bsp_reader_elem_mutations : list (nat * nat) := ' + emuts('reader') + '.',
+        'Definition bsp_writer_elem_mutations : list (nat * nat) := ' + emuts('writer') + '.',
+        '(* ... of these, the pairs where some change is followed by code of the reader that can still raise *)',
+        'Definition bsp_reader_elem_mutations_early : list (nat * nat) := ' + emuts_early() + '.',
         '',
     ]
     side = {
         'get_shape': gshape, 'save_shape': sshape, 'container_layout': lay,
         'reader_stores': [[view_at[a], names[b], ln] for a, b, ln in sorted(set(reader_stores))],
         'view_uses': [[w, view_at[a], (view_at[b] if b < len(view_at) else '?'), k, ln] for w, a, b, k, ln in sorted(set(view_uses))],
+        'elem_mutations': [[w, view_at[a], (view_at[b] if b < len(view_at) else '?'), ln, 'last' if late else 'early']
+                           for w, a, b, ln, late in sorted(set(elem_muts))],
         'order': order, 'views': side_views, 'not_in_order': not_in_order, 'order_without_view': order_without_view,
         'cond_stores': [[view_at[a], names[b], c] for a, b, c in cond_stores],
         'graph': [list(map(list, d)) for d in decls], 'view_at': view_at,
